@@ -222,21 +222,33 @@ theorem labelsEq_symm (a b : Labels) : labelsEq a b = labelsEq b a := Structure.
 theorem labelsEq_trans {a b c : Labels} (hab : labelsEq a b = true) (hbc : labelsEq b c = true) :
     labelsEq a c = true := Structure.labelsEq_trans hab hbc
 
-/-- two pods of one owner (same namespace, same non-empty owner name) whose labels differ, at any
-two distinct positions of the pod list — in any order, with any pods before, between and after,
-including other pods of the same owner —: `ownerLabels` is raised -/
+/-- two pods of one owner (same namespace, same owner kind, same non-empty owner name) whose labels
+differ, at any two distinct positions of the pod list — in any order, with any pods before, between
+and after, including other pods of the same owner —: `ownerLabels` is raised. (The owner is
+identified by kind and name: a ReplicaSet `w` and a ReplicationController `w` of one namespace are
+two owners, see the example below.) -/
 theorem owner_labels_rejected (e : Engine) {i j : Nat} {p q : Pod} (hij : i ≠ j)
     (hi : e.pods[i]? = some p) (hj : e.pods[j]? = some q)
-    (hns : p.ns = q.ns) (hown : p.ownerName = q.ownerName) (hne : p.ownerName ≠ "")
+    (hns : p.ns = q.ns) (hkind : p.ownerKind = q.ownerKind) (hown : p.ownerName = q.ownerName)
+    (hne : p.ownerName ≠ "")
     (hl : labelsEq p.labels q.labels = false) : e.podOwnersMap = .error .ownerLabels := by
-  unfold podOwnersMap
+  unfold podOwnersMap podOwnersMapOf
+  have hsym : labelsEq q.labels p.labels = false := by rw [Structure.labelsEq_symm]; exact hl
+  have key : ∀ l1 l2 l3, e.pods = l1 ++ p :: (l2 ++ q :: l3) ∨ e.pods = l1 ++ q :: (l2 ++ p :: l3) →
+      podOwnersMapOf.go [] [] e.sortedPods = .error .ownerLabels := by
+    intro l1 l2 l3 hsplit
+    rcases hsplit with h3 | h3
+    · rcases perm_two_split (sortedPods_perm e).symm h3 with ⟨a, b, c, h4⟩ | ⟨a, b, c, h4⟩
+      · rw [h4]; exact go_owner_labels a b c hns hkind hown hne hl
+      · rw [h4]; exact go_owner_labels a b c hns.symm hkind.symm hown.symm (hown ▸ hne) hsym
+    · rcases perm_two_split (sortedPods_perm e).symm h3 with ⟨a, b, c, h4⟩ | ⟨a, b, c, h4⟩
+      · rw [h4]; exact go_owner_labels a b c hns.symm hkind.symm hown.symm (hown ▸ hne) hsym
+      · rw [h4]; exact go_owner_labels a b c hns hkind hown hne hl
   rcases Nat.lt_or_gt_of_ne hij with h | h
   · obtain ⟨l1, l2, l3, h3⟩ := split_two hi hj h
-    rw [h3]
-    exact go_owner_labels l1 l2 l3 hns hown hne hl
+    exact key l1 l2 l3 (Or.inl h3)
   · obtain ⟨l1, l2, l3, h3⟩ := split_two hj hi h
-    rw [h3]
-    exact go_owner_labels l1 l2 l3 hns.symm hown.symm (hown ▸ hne) (by rw [Structure.labelsEq_symm]; exact hl)
+    exact key l1 l2 l3 (Or.inr h3)
 
 /-- `ownerLabels` is the only error of `podOwnersMap` -/
 theorem podOwnersMap_error {e : Engine} {err : Err} (h : e.podOwnersMap = .error err) :
@@ -305,11 +317,21 @@ example : let objs := [.anp anp1, .np np1, .banp banp1, .np np3, .ns nsX]
     (banpsOf objs).length ≤ 1 ∧ (∀ b ∈ banpsOf objs, b.name = "default") ∧
     (∀ p ∈ podsOf objs, p.hostIP ≠ "") ∧ ((anpsOf objs).map (·.prio)).Nodup ∧
     (∀ a ∈ anpsOf objs, 0 ≤ a.prio ∧ a.prio ≤ 1000) := by decide
-/-- owner labels: the differing pair is found in either order and behind an agreeing pod -/
-example : errOf (podOwnersMap { pods := [podX, podY] }) = some .ownerLabels := by decide
-example : errOf (podOwnersMap { pods := [podY, podX] }) = some .ownerLabels := by decide
-example : errOf (podOwnersMap { pods := [podZ, podX, podY] }) = some .ownerLabels := by decide
-example : errOf (podOwnersMap { pods := [podZ, podX] }) = none := by decide
+/-- owner labels: the differing pair is found in either order and behind an agreeing pod
+(`podOwnersMap` sorts the pods with `mergeSort`, which `decide` does not unfold; `podOwnersMap_eq`
+takes the sorted arrangement instead) -/
+example : errOf (podOwnersMap { pods := [podX, podY] }) = some .ownerLabels := by
+  rw [podOwnersMap_eq (l := [podX, podY]) (by decide) (by decide)]; decide
+example : errOf (podOwnersMap { pods := [podY, podX] }) = some .ownerLabels := by
+  rw [podOwnersMap_eq (l := [podX, podY]) (by decide) (by decide)]; decide
+example : errOf (podOwnersMap { pods := [podZ, podX, podY] }) = some .ownerLabels := by
+  rw [podOwnersMap_eq (l := [podZ, podX, podY]) (by decide) (by decide)]; decide
+example : errOf (podOwnersMap { pods := [podZ, podX] }) = none := by
+  rw [podOwnersMap_eq (l := [podZ, podX]) (by decide) (by decide)]; decide
 example : labelsEq podX.labels podY.labels = false := by decide
+/-- a ReplicationController named like the ReplicaSet, with other labels: another owner, accepted -/
+def podW : Pod := { podY with name := "p3", ownerKind := "ReplicationController" }
+example : errOf (podOwnersMap { pods := [podX, podW] }) = none := by
+  rw [podOwnersMap_eq (l := [podX, podW]) (by decide) (by decide)]; decide
 
 end Netpol.Properties.C19
